@@ -15,6 +15,8 @@ import (
 	"net/netip"
 	"os"
 	"reflect"
+	"sort"
+	"syscall"
 	"time"
 
 	"github.com/uhppoted/uhppote-core/types"
@@ -414,6 +416,62 @@ func doubleStopScenario(how string, bound int) e1.Scenario {
 	return e1.Scenario{Name: "double-stop/" + how, Bound: bound, Body: body, Check: check, Opt: vs.Options{Horizon: 3000}}
 }
 
+// stopTokenScenario: "the listener stops when signalled" - whatever is delivered on the stop
+// channel: any os.Signal value (signals an application may receive without meaning to quit
+// included), a nil value, or the channel being closed; through a quiet and a debug client.
+var stopTokens = map[string]os.Signal{"interrupt": os.Interrupt, "kill": os.Kill, "sigterm": syscall.SIGTERM, "sighup": syscall.SIGHUP, "sigquit": syscall.SIGQUIT,
+	"sigurg": syscall.SIGURG, "sigchld": syscall.SIGCHLD, "sigwinch": syscall.SIGWINCH, "sigusr1": syscall.SIGUSR1, "sigpipe": syscall.SIGPIPE, "sigcont": syscall.SIGCONT, "signal-0": syscall.Signal(0), "nil": nil}
+
+func stopTokenScenario(token string, debug bool) e1.Scenario {
+	var l1 *listener
+	var ret error
+	var done bool
+	body := func() {
+		l1 = &listener{}
+		done, ret = false, nil
+		c1 := l1
+		vs.Net().Env = &farm.Farm{}
+		u := uhppote.NewUHPPOTE(types.BindAddr{}, types.BroadcastAddr{}, types.ListenAddrFrom(netip.MustParseAddr("0.0.0.0"), lport), T, nil, debug)
+		d := datagram("valid", 0)
+		vs.After(T/10, func() { vs.Net().DeliverUDP("192.168.1.100:60000", fmt.Sprintf("192.168.1.2:%d", lport), d) })
+		q := make(chan os.Signal, 1)
+		vs.GoNamed("stopper", func() {
+			vs.Sleep(3 * T / 10)
+			if token == "close" {
+				vs.Close(q)
+			} else {
+				vs.Send(q, stopTokens[token])
+			}
+		})
+		ret = u.Listen(c1, q)
+		done = true
+	}
+	check := func(e *vs.Exec) (string, []e1.Viol) {
+		viols := e1.Generic(e)
+		if e.Abort != "" {
+			return e.Abort, viols
+		}
+		what := fmt.Sprintf("stop channel: %s, debug=%v", token, debug)
+		if !done || ret != nil {
+			viols = append(viols, e1.Viol{Key: "stop-token/listener-did-not-return-nil", What: fmt.Sprintf("returned=%v err=%v (%s)", done, ret, what)})
+		}
+		ev := 0
+		for _, c := range l1.calls {
+			if c.kind == "event" {
+				ev++
+			}
+		}
+		if ev != 1 {
+			viols = append(viols, e1.Viol{Key: "stop-token/events", What: fmt.Sprintf("%d events delivered, 1 arrived before the stop (%s)", ev, what)})
+		}
+		if open := vs.Net().OpenSockets(); len(open) > 0 {
+			viols = append(viols, e1.Viol{Key: "stop-token/socket-leak", What: fmt.Sprint(open) + " (" + what + ")"})
+		}
+		return fmt.Sprintf("stop-token ret=%v events=%d", ret == nil, ev), viols
+	}
+	return e1.Scenario{Name: fmt.Sprintf("stop-token/%s/debug=%v", token, debug), Bound: 1, Body: body, Check: check, Opt: vs.Options{Horizon: 3000}}
+}
+
 func sequences(alphabet []string, maxLen int) [][]string {
 	out := [][]string{{}}
 	frontier := [][]string{{}}
@@ -556,6 +614,17 @@ func main() {
 			b = 2
 		}
 		scenarios = append(scenarios, doubleStopScenario(how, b))
+	}
+	// every kind of stop token, quiet and debug client
+	{
+		tokens := []string{"close"}
+		for t := range stopTokens {
+			tokens = append(tokens, t)
+		}
+		sort.Strings(tokens)
+		for _, t := range tokens {
+			scenarios = append(scenarios, stopTokenScenario(t, false), stopTokenScenario(t, true))
+		}
 	}
 	// (c) start/stop cycles on the same address
 	for _, seq := range sequences([]string{"valid", "bad-boolean"}, 1) {
